@@ -1,9 +1,13 @@
 #!/bin/bash
 # Rebuild the repository in its own (baseline) configuration - guard GSTLEARN_VERIF off - and run
-# its test-suite exactly as BASELINE.json does.
-set -e
+# its test-suite as BASELINE.json does; then compare with the stable_pass list.
 if [ ! -f /repo/_build/build.ninja ]; then
-  cmake -G Ninja -S /repo -B /repo/_build -DCMAKE_BUILD_TYPE=RelWithDebInfo -DBUILD_TESTING=ON -DCMAKE_CXX_FLAGS=-Wno-error
+  cmake -G Ninja -S /repo -B /repo/_build -DCMAKE_BUILD_TYPE=RelWithDebInfo -DBUILD_TESTING=ON -DCMAKE_CXX_FLAGS=-Wno-error || exit 2
 fi
-cmake --build /repo/_build
-ctest --test-dir /repo/_build -j8 --timeout 900 "$@"
+cmake --build /repo/_build || exit 2
+LOG=$(mktemp /tmp/baseline.XXXXXX.log)
+ctest --test-dir /repo/_build -j8 --timeout 900 "$@" > "$LOG" 2>&1
+tail -5 "$LOG"
+python3 "$(dirname "$0")/baseline_compare.py" "$LOG"; rc=$?
+rm -f "$LOG"
+exit $rc
